@@ -49,7 +49,7 @@ func checkC11(c *Ctx) {
 	c.Floor("C11.R3", 1)
 	c.Floor("C11.R4", 1)
 	c.Floor("C11.R5", 1)
-	c.Floor("C11.R6", 6)
+	c.Floor("C11.R6", 3)
 }
 
 // ---------------------------------------------------------------- R1
